@@ -284,3 +284,31 @@ def copies_of_a_nested_setting_value_do_not_alias_the_original(n0: int, n1: int,
     assert cs["cycles"][0]["burn steps"] == n0 and dup["cycles"][0]["burn steps"] == n0 + 1, "nor a duplicate"
     cs["cycles"][0]["name"] = "changed"
     assert cp["cycles"][0]["name"] == "startup" and dup["cycles"][0]["name"] == "startup" and s.value[0]["name"] == "startup", "nor the other way round"
+
+
+@lemma(overrides=OVR, gen={"b": (-5, 120), "order": (0, 5), "k1": (0, 2), "k2": (0, 2)})
+def every_old_name_is_judged_by_its_own_expiry(b: int, order: int, k1: int, k2: int):
+    """a setting with THREE old names in every order: one renamed for good (no expiry), two dated ones whose expiry day
+    is before, on or after today (3 x 3 enumerated): a value given under an old name lands on the new name exactly when THAT name has no expiry or one after today -
+    whatever the other old names of the same setting are and wherever they stand in the list"""
+    order = choose(order, 0, 5)
+    e1 = [5, 10, 50][choose(k1, 0, 2)]
+    e2 = [5, 10, 50][choose(k2, 0, 2)]
+    names = [("pumpCount", None), ("numPumps", e1), ("pumps", e2)]
+    perm = [[0, 1, 2], [0, 2, 1], [1, 0, 2], [1, 2, 0], [2, 0, 1], [2, 1, 0]][order]
+    defs = definitions()
+    defs["coolantPumpCount"] = Setting("coolantPumpCount", 2, "number of pumps", oldNames=[names[k] for k in perm])
+    cs = new(Settings, _Settings__settings=defs, path="", _failOnLoad=False, filelessBP=False)
+    rd = reader(cs)
+    rd._applySettings("pumpCount", b)
+    assert cs["coolantPumpCount"] == b and rd.invalidSettings == set(), "the permanent old name is always accepted"
+    rd._applySettings("numPumps", b + 1)
+    live1 = e1 > 10  # today is day 10
+    assert cs["coolantPumpCount"] == (b + 1 if live1 else b), "a dated old name is accepted while its own date lies ahead"
+    assert ("numPumps" in rd.invalidSettings) == (not live1)
+    rd._applySettings("pumps", b + 2)
+    live2 = e2 > 10
+    assert cs["coolantPumpCount"] == (b + 2 if live2 else (b + 1 if live1 else b))
+    assert ("pumps" in rd.invalidSettings) == (not live2)
+    rd._applySettings("numCycles", 3)
+    assert cs["nCycles"] == 3, "renames of other settings are unaffected"
